@@ -177,3 +177,12 @@ CASES += [
     {"name": "value-defined spectral density adds the raw reorganisation energy (the repaired defect)", "kind": "mutant", "rule": "C09-E", "edits": [
         ("quantarhei/qm/corfunctions/spectraldensities.py", "                    self.lamb += cprm[\"reorg\"]", "                    self.lamb += p[\"reorg\"]", 1)]},
 ]
+
+CASES += [
+    {"name": "added component initialises a real-valued function again (seeded change of round 6)", "kind": "mutant", "rule": "C09-J", "edits": [
+        ("quantarhei/core/dfunction.py", "        if self._has_imag is None:\n            self._make_me(x,y)", "        if not self._has_imag:\n            self._make_me(x,y)", 1)]},
+    {"name": "added component initialises when the function is initialised", "kind": "mutant", "rule": "C09-J", "edits": [
+        ("quantarhei/core/dfunction.py", "        if self._has_imag is None:\n            self._make_me(x,y)", "        if self._has_imag is not None:\n            self._make_me(x,y)", 1)]},
+    {"name": "uninitialised test written with not ... is not None", "kind": "twin", "edits": [
+        ("quantarhei/core/dfunction.py", "        if self._has_imag is None:\n            self._make_me(x,y)", "        if not (self._has_imag is not None):\n            self._make_me(x,y)", 1)]},
+]
